@@ -6,6 +6,7 @@ import copy
 from dataclasses import dataclass, field
 import datetime
 import enum
+import io
 import logging
 import os
 import re
@@ -290,6 +291,20 @@ class CoseSecOpCtx:
         # Encoded security source EID
         ssrc_fld, ssrc_val = self.sec_blk.payload.getfield_and_val('source')
         self.ssrc_enc = cbor2.dumps(ssrc_fld.i2m(self.sec_blk.payload, ssrc_val))
+        btsd = self.sec_blk.getfieldval('btsd')
+        if btsd:
+            # A received block binds the source item as it was received, not
+            # as this implementation would write the decoded value
+            try:
+                buf = io.BytesIO(bytes(btsd))
+                dec = cbor2.CBORDecoder(buf)
+                for _ix in range(3):
+                    dec.decode()
+                start = buf.tell()
+                dec.decode()
+                self.ssrc_enc = bytes(btsd)[start:buf.tell()]
+            except Exception as err:
+                LOGGER.warning('Cannot locate the security source item: %s', err)
 
         self.addl_protected = b''
         addl_unprotected = b''
